@@ -6,10 +6,35 @@
 #include "kit.h"
 #include "kitfull.h"
 KIT_C_BEGIN
+sexp_sint_t sexp_bignum_compare_abs (sexp a, sexp b);
 sexp sexp_hash_table_cell (sexp ctx, sexp self, sexp_sint_t n, sexp ht, sexp obj, sexp createp);
 sexp sexp_hash_table_delete (sexp ctx, sexp self, sexp_sint_t n, sexp ht, sexp obj);
 KIT_C_END
 #define HT_TAG SEXP_NUM_CORE_TYPES
+
+#ifdef HASH_MODEL
+/* specification of the default hash for the two key objects of this harness: an arbitrary value each,
+   equal for equal? keys (established for the real body by the equal=>hash queries), reduced modulo the bound */
+static sexp key_a, key_b;
+static sexp_uint_t hash_a, hash_b;
+KIT_C_BEGIN
+sexp sexp_hash (sexp ctx, sexp self, sexp_sint_t n, sexp obj, sexp bound) {
+  KIT_ASSERT(obj == key_a || obj == key_b, "only the two keys are hashed");
+  KIT_ASSERT(sexp_fixnump(bound) && sexp_unbox_fixnum(bound) > 0, "the bound is the bucket count");
+  sexp_uint_t h = (obj == key_a) ? hash_a : hash_b;
+  return sexp_make_fixnum(h % (sexp_uint_t) sexp_unbox_fixnum(bound));
+}
+#ifdef SAME
+/* ... and of equal? on the two keys: -DSAME says whether they are equal? (the harness constrains their contents
+   accordingly); the real comparison is the subject of the symmetry/transitivity/contents queries */
+sexp sexp_equalp_op (sexp ctx, sexp self, sexp_sint_t n, sexp a, sexp b) {
+  if (a == b) return SEXP_TRUE;
+  KIT_ASSERT((a == key_a && b == key_b) || (a == key_b && b == key_a), "only the two keys are compared");
+  return SAME ? SEXP_TRUE : SEXP_FALSE;
+}
+#endif
+KIT_C_END
+#endif
 
 static sexp mk_table(sexp ctx, int nbuckets) {
   /* register a "Hash-Table" record type (4 slots) in the context's type table, as (srfi 69) does */
@@ -43,7 +68,22 @@ void harness(void) {
   sexp A = kit_any_bignum(AK, 0), B = kit_any_bignum(BK, 0);
   __CPROVER_assume(canonical(A) && canonical(B));
   sexp va = kit_flonum(1.5);
+#ifdef SAME
+  /* same value <=> equal? (both canonical exact integers) */
+  _Bool eqv = sexp_bignum_sign(A) == sexp_bignum_sign(B) && sexp_bignum_compare_abs(A, B) == 0;
+  __CPROVER_assume(eqv == (SAME != 0));
+  key_a = A; key_b = B;
+  sexp same = SAME ? SEXP_TRUE : SEXP_FALSE;
+#else
   sexp same = sexp_equalp_op(ctx, SEXP_FALSE, 2, A, B);
+#endif
+#ifdef HASH_MODEL
+  /* the specification's values are enumerated per query (-DHASH_A/-DHASH_B, residues modulo the bucket count:
+     all the table code can observe); symbolic values would make the bucket, hence the stored key handed to
+     equal?, a symbolic object and symex would explore equal?'s recursion on it */
+  key_a = A; key_b = B; hash_a = HASH_A; hash_b = HASH_B;
+  __CPROVER_assume(same != SEXP_TRUE || hash_a == hash_b);
+#endif
   /* insert A */
   sexp ca = sexp_hash_table_cell(ctx, SEXP_FALSE, 3, ht, A, va);
   KIT_ASSERT(sexp_pairp(ca) && sexp_car(ca) == A && sexp_cdr(ca) == va && sexp_slot_ref(ht, 1) == SEXP_ONE, "insertion creates the cell and counts it");
